@@ -4,8 +4,10 @@ Copyright © 2023 NAME HERE <EMAIL ADDRESS>
 package cmd
 
 import (
+	"errors"
 	"fmt"
 	"os"
+	"syscall"
 
 	"github.com/JunNishimura/Goit/internal/file"
 	"github.com/JunNishimura/Goit/internal/object"
@@ -62,7 +64,10 @@ var statusCmd = &cobra.Command{
 		var deletedFiles []string
 		for _, entry := range client.Idx.Entries {
 			filePath := string(entry.Path)
-			if _, err := os.Stat(filePath); os.IsNotExist(err) {
+			// a tracked file is also missing when a directory stands in its place
+			// or when one of its parent directories has become a file
+			info, err := os.Stat(filePath)
+			if os.IsNotExist(err) || errors.Is(err, syscall.ENOTDIR) || (err == nil && info.IsDir()) {
 				deletedFiles = append(deletedFiles, filePath)
 			}
 		}
